@@ -5,6 +5,7 @@ import GsModel.Text.Escape
 import GsModel.Ops.Gather
 import GsModel.Sec.Serve
 import GsModel.Params.Bind
+import GsModel.Schema.Valid
 /-
   Model driver: one JSON request per line on stdin, one JSON response per line on stdout.
   Imports no Mathlib (compiled as `lean_exe gsdriver`).
@@ -140,6 +141,47 @@ def handleBind (j : Json) : Json :=
     | _ => none
   Json.mkObj [("r", Json.str "ok"), ("gen", boundJson (Params.bindGen p raw)), ("ref", boundJson (Params.bindRef p raw))]
 
+partial def toJ (j : Json) : Schema.J :=
+  match j with
+  | .null => .null
+  | .bool b => .bool b
+  | .num n =>
+    let e := n.exponent
+    if e ≤ 3 then .num (n.mantissa * (10 : Int) ^ (3 - e)) else .num (n.mantissa / (10 : Int) ^ (e - 3))
+  | .str s => .str s
+  | .arr a => .arr (a.toList.map toJ)
+  | .obj o => .obj (o.toList.map (fun kv => (kv.1, toJ kv.2)))
+
+partial def toSchema (j : Json) : Schema.Schema :=
+  let sub (k : String) : Option Schema.Schema :=
+    match j.getObjVal? k with
+    | .ok (.obj o) => some (toSchema (.obj o))
+    | _ => none
+  { ref := Diff.J.str j "ref", ty := Diff.J.str j "ty", nullable := Diff.J.bool j "nullable", readOnly := Diff.J.bool j "readOnly",
+    hasDefault := Diff.J.bool j "hasDefault", minLen := optNat j "minLen", maxLen := optNat j "maxLen",
+    minimum := Diff.J.optInt j "minimum", exMin := Diff.J.bool j "exMin", maximum := Diff.J.optInt j "maximum", exMax := Diff.J.bool j "exMax",
+    multipleOf := Diff.J.optInt j "multipleOf", enum := (Diff.J.arr j "enum").map toJ, items := sub "items",
+    minItems := optNat j "minItems", maxItems := optNat j "maxItems", unique := Diff.J.bool j "unique",
+    props := (Diff.J.arr j "props").map (fun kv => (Diff.J.str kv "k", toSchema ((kv.getObjVal? "v").toOption.getD .null))),
+    required := Diff.J.strs j "required", addl := sub "addl", allOf := (Diff.J.arr j "allOf").map toSchema }
+
+def schemaDefs (j : Json) : Schema.Defs :=
+  (Diff.J.arr j "defs").map (fun kv => (Diff.J.str kv "k", toSchema ((kv.getObjVal? "v").toOption.getD .null)))
+
+def handleSchemaCheck (j : Json) : Json :=
+  let d := schemaDefs j
+  let s := toSchema ((j.getObjVal? "s").toOption.getD .null)
+  let v := toJ ((j.getObjVal? "j").toOption.getD .null)
+  Json.mkObj [("r", Json.str "ok"), ("valid", Json.bool (Schema.valid d 60 s v)), ("validSkip", Json.bool (Schema.validSkip d 60 s v)),
+    ("noZero", Json.bool (Schema.noZeroProps 60 v))]
+
+def handleTolerated (j : Json) : Json :=
+  let d := schemaDefs j
+  let s := toSchema ((j.getObjVal? "s").toOption.getD .null)
+  let a := toJ ((j.getObjVal? "j").toOption.getD .null)
+  let b := toJ ((j.getObjVal? "j2").toOption.getD .null)
+  Json.mkObj [("r", Json.str "ok"), ("tolerated", Json.bool (Schema.tolerated d 60 s a b)), ("equal", Json.bool (Schema.J.beq 60 a b))]
+
 def handle (line : String) : Json :=
   match Json.parse line with
   | .error e => Json.mkObj [("r", Json.str "bad-input"), ("why", Json.str e)]
@@ -152,6 +194,8 @@ def handle (line : String) : Json :=
     | "ops.gather" => handleGather j
     | "sec.serve" => handleSec j
     | "param.bind" => handleBind j
+    | "schema.check" => handleSchemaCheck j
+    | "schema.tolerated" => handleTolerated j
     | op => Json.mkObj [("r", Json.str "bad-op"), ("op", Json.str op)]
 
 partial def loop (h : IO.FS.Stream) (out : IO.FS.Stream) : IO Unit := do
